@@ -1,7 +1,8 @@
 """C19 — every RPC completes exactly once with the response that carries its own id.
 
 Theorems: Props/C19.lean over Model/Rpc.lean (atomic-step model of RpcChannel, any interleaving of calling
-threads and the loop thread).  T1: vlib/gen/rpc.py.  T2: harness/rpc_drv.cc (real RpcChannel / RpcServer /
+threads and the loop thread); invariants CallInv (Proofs/Rpc*.lean), TraceInv (RpcOnce), SrvInv (RpcServe), HaltInv /
+ServerInv (RpcLife), closed forms of the REQUEST branch and the reply specification `expected` (RpcShape).  T1: vlib/gen/rpc.py.  T2: harness/rpc_drv.cc (real RpcChannel / RpcServer /
 generated service over socketpairs in a single-stepped EventLoop; the harness is the raw peer) against the
 Lean driver, plus the independent specification below evaluated on the implementation's own trace."""
 import glob
